@@ -78,6 +78,8 @@ func runC14(p *load.Program, r *core.Report) {
 	lockPairing(p, r, "C14.X8 connection-locks-paired", "C14.X8", 33, func(o string) bool {
 		return o == "net/proto.connection" || o == "node.network" || o == "node.enableSpawn" || o == "node.enableAppStart"
 	})
+	mappedNameText(p, r, "C14.X9 notice-names-the-mapped-name", "C14.X9", 5)
+	c14DownAfterUnregister(p, r)
 	c14PoolTermination(p, r)
 	c14ResultChannels(p, r)
 	c14Chain(p, r)
